@@ -848,10 +848,15 @@ class Frame(object):
             bp_profile = bp_profile(restricted_fs)
         elif isinstance(bp_profile, (list, np.ndarray)):
             bp_profile = np.array(bp_profile)
-            if bp_profile.shape != restricted_fs.shape:
+            bounded_shape = self.fs[bounding_min:bounding_max].shape
+            if bp_profile.shape != bounded_shape:
                 raise ValueError('Shape of bp_profile array is {0} != {1}.'
                                  .format(bp_profile.shape,
-                                         restricted_fs.shape))
+                                         bounded_shape))
+            if integrate_f_profile:
+                # One value per frequency channel: hold it over the
+                # channel's sub-samples
+                bp_profile = np.repeat(bp_profile, f_subsamples)
         elif isinstance(bp_profile, (int, float)):
             bp_profile = np.full(restricted_fs.shape, bp_profile)
         else:
